@@ -28,7 +28,9 @@ var concScripts = map[string]string{
 add := func(n) { acc += n; return acc }
 for i := 0; i < 30; i++ { add(i * x) }
 arr[0] = arr[0] + 1
-r := acc + arr[0]`,
+cfg.state.hits += 1
+nested[0].n += 1
+r := acc + arr[0] + cfg.state.hits + nested[0].n`,
 	// indexes and iterates a string constant shared by all clones (String.runeStr cache)
 	"strindex": `s := "héllo wörld, shared constant"
 n := 0
@@ -39,6 +41,10 @@ r := n + x`,
 	"fails": `m := import("mod")
 r := x
 y := m.f(x) + undefined`,
+	// single file, fails in an instruction without operands (the position is found by walking back)
+	"fails2": `r := x
+f := func(v) { return v.a.b }
+y := f(x)`,
 	// source and builtin modules, module function constants shared by all clones
 	"modules": `math := import("math")
 m := import("mod")
@@ -53,6 +59,9 @@ func concCompile(script string) (*tengo.Compiled, error) {
 	s.SetImports(mm)
 	_ = s.Add("x", 3)
 	_ = s.Add("arr", []interface{}{1, 2, 3})
+	// an immutable input holding a mutable child, and a container nested in a container
+	_ = s.Add("cfg", &tengo.ImmutableMap{Value: map[string]tengo.Object{"state": &tengo.Map{Value: map[string]tengo.Object{"hits": &tengo.Int{Value: 0}}}}})
+	_ = s.Add("nested", []interface{}{map[string]interface{}{"n": 0}})
 	return s.Compile()
 }
 
@@ -156,6 +165,8 @@ func concHandle(raw []byte) map[string]interface{} {
 			ref, _ := concCompile(cs.Script)
 			_ = ref.Set("x", xv)
 			_ = ref.Set("arr", o.Get("arr").Value())
+			_ = ref.Set("cfg", o.Get("cfg").Object().Copy())
+			_ = ref.Set("nested", o.Get("nested").Value())
 			e1 := o.Run()
 			e2 := ref.Run()
 			if (e1 == nil) != (e2 == nil) || (e1 == nil && fmt.Sprint(o.Get("r").Value()) != fmt.Sprint(ref.Get("r").Value())) {
